@@ -32,6 +32,13 @@ class Iter(Op):
                tuple(sorted(dict(fmt=4, anchor=("c", 2016, 8, 1, 0, 59, 0, 0, 0),
                                  interval=("U", 0, 1, 2, 0, 0, 0), reps=2).items())))
 
+    sibling_rate = 0.35
+
+    def sibling(self, a, rng):
+        m, rec, info = a
+        rec2, info2 = R.respell_rec(rng, m, rec, dict(info))
+        return [(m, rec2, tuple(sorted(info2.items())))]
+
     def line(self, a):
         return "riter %s %d %s" % (a[0], K, R.rec_line(a[1]))
 
